@@ -294,17 +294,20 @@ impl QueryRouter {
 
         match command {
             Command::SetShardingKey => {
-                // TODO: some error handling here
-                value = self
-                    .set_sharding_key(value.parse::<i64>().unwrap())
-                    .unwrap()
-                    .to_string();
+                value = match value.parse::<i64>() {
+                    Ok(sharding_key) => self.set_sharding_key(sharding_key).unwrap().to_string(),
+                    // Not a bigint: select a shard that cannot exist, the client is told so.
+                    Err(_) => {
+                        self.active_shard = Some(usize::MAX);
+                        return Some((Command::SetShard, value));
+                    }
+                };
             }
 
             Command::SetShard => {
                 self.active_shard = match value.to_ascii_uppercase().as_ref() {
                     "ANY" => Some(rand::random::<usize>() % self.pool_settings.shards),
-                    _ => Some(value.parse::<usize>().unwrap()),
+                    _ => Some(value.parse::<usize>().unwrap_or(usize::MAX)),
                 };
             }
 
